@@ -26,7 +26,7 @@ RULE = ('(a) explicit-state BFS, case = (terminal state, token); non-trivial = t
 ASSUMPTIONS = ['token alphabet as listed in bounds; screens up to 3x4; "randomly on larger screens" is sampling and deliberately not done',
                'the emulator appends to ./log on unknown sequences: the check runs in /verif/.scratch']
 STATES_MEANING = 'distinct terminal states (grid, cursor, saved cursor, scroll region, FSM state, parameter stack, decoder state), deduplicated, summed over screens; plus one per chunk-independence partition'
-REQUIRED_FLAGS = {'cut_inside_escape': 1, 'cut_inside_multibyte': 1, 'degenerate_param': 1, 'truncated_sequence': 1,
+REQUIRED_FLAGS = {'two_terminals_interleaved': 1, 'cut_inside_escape': 1, 'cut_inside_multibyte': 1, 'degenerate_param': 1, 'truncated_sequence': 1,
                   'unknown_sequence': 1, 'scrolled': 1}
 
 ESC = '\x1b'
@@ -81,6 +81,17 @@ def tokens_for(rows, cols):
     return out
 
 
+def snap_obj(t):
+    try:
+        g = tuple(''.join(r) for r in t.w)
+    except TypeError:
+        g = repr(t.w)
+    mem = t.state.memory
+    return (g, t.cur_r, t.cur_c, t.cur_saved_r, t.cur_saved_c, t.scroll_row_start, t.scroll_row_end,
+            t.state.current_state, tuple(repr(x) for x in mem[1:]) if isinstance(mem, list) else repr(mem),
+            t.decoder.getstate())
+
+
 class Term(object):
     """One reusable real ANSI object per screen size; state is restored field by field."""
 
@@ -93,15 +104,7 @@ class Term(object):
             'cur_saved_c', 'scroll_row_start', 'scroll_row_end', 'w', 'state'))
 
     def snap(self):
-        t = self.t
-        try:
-            g = tuple(''.join(r) for r in t.w)
-        except TypeError:
-            g = repr(t.w)
-        mem = t.state.memory
-        return (g, t.cur_r, t.cur_c, t.cur_saved_r, t.cur_saved_c, t.scroll_row_start, t.scroll_row_end,
-                t.state.current_state, tuple(repr(x) for x in mem[1:]) if isinstance(mem, list) else repr(mem),
-                t.decoder.getstate())
+        return snap_obj(self.t)
 
     def restore(self, st):
         t = self.t
@@ -152,6 +155,9 @@ def tasks(tier):
         for i in range(48):
             t.append(dict(kind='chunk3', rows=2, cols=2, part=i, parts=48, plen=3, cuts=1))
     t.append(dict(kind='chunk-bytes', rows=2, cols=3, cuts=2 if q else 3))
+    # two live terminals fed alternately: neither may see anything of the other's input
+    for enc in ('utf-8', 'latin-1'):
+        t.append(dict(kind='two', rows=2, cols=4, enc=enc))
     return t
 
 
@@ -327,6 +333,74 @@ def run_chunk_bytes(task, acc):
     acc.states += 1
 
 
+TWO_POOL = ['\u20aca', 'hi\u2328', ESC + '[1;2H\xe9', 'xyz', ESC + '[2;', 'a\u20ac']
+
+
+def two_inputs(enc):
+    out = []
+    for x in TWO_POOL:
+        try:
+            out.append(x.encode(enc))
+        except UnicodeError:
+            out.append(x.encode(enc, 'replace'))
+    if enc == 'utf-8':
+        out.append('hi\u2328'.encode(enc)[:-1])       # ends inside a character
+    return out
+
+
+def two_run(rows, cols, enc, a, ca, b, cb, order):
+    """Two fresh terminals; a is fed to the first in the pieces a[:ca], a[ca:], b to the second likewise,
+    in the given interleaving ('A'/'B' per step).  Returns the two snapshots."""
+    from pexpect import ANSI
+    t1 = ANSI.ANSI(rows, cols, encoding=enc)
+    t2 = ANSI.ANSI(rows, cols, encoding=enc)
+    pa, pb = [a[:ca], a[ca:]], [b[:cb], b[cb:]]
+    for who in order:
+        if who == 'A':
+            t1.write(pa.pop(0))
+        else:
+            t2.write(pb.pop(0))
+    return snap_obj(t1), snap_obj(t2)
+
+
+def two_solo(rows, cols, enc, data):
+    from pexpect import ANSI
+    t = ANSI.ANSI(rows, cols, encoding=enc)
+    t.write(data)
+    return snap_obj(t)
+
+
+TWO_ORDERS = ['AABB', 'ABAB', 'ABBA', 'BAAB', 'BABA', 'BBAA']
+
+
+def run_two(task, acc):
+    rows, cols, enc = task['rows'], task['cols'], task['enc']
+    ins = two_inputs(enc)
+    for a in ins:
+        for b in ins:
+            for ca in range(len(a) + 1):
+                for cb in range(len(b) + 1):
+                    for order in TWO_ORDERS:
+                        acc.execs += 1
+                        acc.transitions += 4
+                        acc.nontrivial += 1
+                        try:
+                            got = two_run(rows, cols, enc, a, ca, b, cb, order)
+                            want = (two_solo(rows, cols, enc, a), two_solo(rows, cols, enc, b))
+                        except Exception as e:
+                            got, want = ('raised', repr(e)), None
+                        if order not in ('AABB', 'BBAA'):
+                            acc.flags['two_terminals_interleaved'] += 1
+                        ok = got == want
+                        acc.outcomes['two:%s' % ('same' if ok else 'differs')] += 1
+                        if not ok:
+                            acc.violation('two:%s:differs' % enc,
+                                          'two terminals fed %r (cut %d) and %r (cut %d) in order %s show %r; each alone shows %r'
+                                          % (a, ca, b, cb, order, got, want),
+                                          dict(task=task, two=[a, ca, b, cb, order]))
+    acc.states += 1
+
+
 def run_task(task):
     os.makedirs('/verif/.scratch', exist_ok=True)
     os.chdir('/verif/.scratch')
@@ -335,6 +409,8 @@ def run_task(task):
         run_bfs(task, acc)
     elif task['kind'] in ('chunk', 'chunk3'):
         run_chunk(task, acc)
+    elif task['kind'] == 'two':
+        run_two(task, acc)
     else:
         run_chunk_bytes(task, acc)
     try:
@@ -354,6 +430,18 @@ def replay(spec):
     task = spec['task']
     rows, cols = task['rows'], task['cols']
     out = {'violation': None}
+    if 'two' in spec:
+        a, ca, b, cb, order = spec['two']
+        enc = task['enc']
+        try:
+            got = two_run(rows, cols, enc, a, ca, b, cb, order)
+            want = (two_solo(rows, cols, enc, a), two_solo(rows, cols, enc, b))
+        except Exception as e:
+            got, want = ('raised', repr(e)), None
+        out['got'], out['want'] = repr(got), repr(want)
+        if got != want:
+            out['violation'] = {'key': 'two:%s:differs' % enc, 'msg': 'together %r, alone %r' % (got, want)}
+        return out
     if 'how' not in spec:
         term = Term(rows, cols)
         last = None
